@@ -420,8 +420,11 @@ type World struct {
 	appToEnt map[string]string
 
 	respKeyVer int
-	metaKeyVer int
-	healthy    bool
+	// respKeyTorn: a half-finished rotation of the response signing key record — the storage already holds the next version's
+	// certificate next to the current version's private key (mutation tearKey; the next rotateKey, or heal, completes it)
+	respKeyTorn bool
+	metaKeyVer  int
+	healthy     bool
 
 	healed       bool
 	Fired        map[string]int
@@ -578,7 +581,7 @@ func (w *World) depStamp(t *Task) string {
 	w.mu.Lock()
 	defer w.mu.Unlock()
 	var sb strings.Builder
-	fmt.Fprintf(&sb, "reg%d resp%d meta%d healthy=%v healed=%v", w.regSeq, w.respKeyVer, w.metaKeyVer, w.healthy, w.healed)
+	fmt.Fprintf(&sb, "reg%d resp%d torn=%v meta%d healthy=%v healed=%v", w.regSeq, w.respKeyVer, w.respKeyTorn, w.metaKeyVer, w.healthy, w.healed)
 	if t.Sent != nil {
 		ids := append([]string{t.Sent.CallbackID}, t.Sent.CallbackIDs...)
 		for _, id := range ids {
@@ -825,6 +828,12 @@ func (w *World) noop(why string) {
 }
 
 func (w *World) heal() {
+	w.mu.Lock()
+	if w.respKeyTorn {
+		w.respKeyVer++ // the rotation completes
+		w.respKeyTorn = false
+	}
+	w.mu.Unlock()
 	w.healed = true
 	w.healthy = true
 	w.hist.add("heal", -1, "")
@@ -1204,9 +1213,16 @@ func (w *World) mutate(s *Step) {
 		w.mu.Unlock()
 		w.fire("request_deleted")
 		w.hist.add("mutate", -1, fmt.Sprintf("deleteRequest %d", se.Idx))
+	case "tearKey":
+		w.mu.Lock()
+		w.respKeyTorn = true
+		w.mu.Unlock()
+		w.fire("key_record_torn")
+		w.hist.add("mutate", -1, fmt.Sprintf("tearKey: certificate v%d next to key v%d", w.respKeyVer+1, w.respKeyVer))
 	case "rotateKey":
 		w.mu.Lock()
 		w.respKeyVer++
+		w.respKeyTorn = false
 		w.mu.Unlock()
 		w.fire("key_rotated")
 		w.hist.add("mutate", -1, fmt.Sprintf("rotateKey → v%d", w.respKeyVer))
@@ -1363,7 +1379,7 @@ func (w *World) send(m *MsgSpec) *Task {
 	for _, n := range w.sps {
 		t.SPVers0 = append(t.SPVers0, n.Version)
 	}
-	t.RespKeyVer0, t.MetaKeyVer0 = w.respKeyVer, w.metaKeyVer
+	t.RespKeyVer0, t.MetaKeyVer0 = w.respCertVer(), w.metaKeyVer
 	t.SeqInvoke = w.hist.add("invoke", t.ID, fmt.Sprintf("%s sp=%d replica=%d %s", m.Kind, m.SP, ri, sent.Summary))
 	h := w.replicas[ri].Prov.HttpHandler()
 	go func() {
@@ -1375,7 +1391,7 @@ func (w *World) send(m *MsgSpec) *Task {
 			}
 			t.TReturn = time.Now()
 			w.mu.Lock()
-			t.RespKeyVer1, t.MetaKeyVer1 = w.respKeyVer, w.metaKeyVer
+			t.RespKeyVer1, t.MetaKeyVer1 = w.respCertVer(), w.metaKeyVer
 			t.handlerDone = true
 			w.mu.Unlock()
 			t.SeqReturn = w.hist.add("return", t.ID, "")
@@ -1631,6 +1647,14 @@ func (w *World) respKey(ver int) *KeyPair {
 	}
 	return Keys[KeyIDPResp0+mod(ver, 3)]
 }
+
+// respCertVer: the version of the response signing certificate the storage currently hands out (and the IdP therefore publishes).
+func (w *World) respCertVer() int {
+	if w.respKeyTorn {
+		return w.respKeyVer + 1
+	}
+	return w.respKeyVer
+}
 func (w *World) metaKey(ver int) *KeyPair { return Keys[KeyIDPMeta0+mod(ver, 2)] }
 
 func (s *simStorage) GetMetadataSigningKey(ctx context.Context) (*key.CertificateAndKey, error) {
@@ -1662,9 +1686,17 @@ func (s *simStorage) GetResponseSigningKey(ctx context.Context) (*key.Certificat
 	t, rec, fault := s.enter(ctx, "GetResponseSigningKey")
 	defer s.leave(t, rec)
 	s.w.mu.Lock()
-	ver := s.w.respKeyVer
+	ver, torn := s.w.respKeyVer, s.w.respKeyTorn
 	s.w.mu.Unlock()
 	rec.KeyVer = ver
+	if torn && (fault == "" || fault == "none") {
+		// the certificate handed out (and therefore published) is the next version's, the private key still the current one
+		rec.KeyVer = ver + 1
+		sh := s.tenantShift(ctx)
+		rec.Ret = fmt.Sprintf("cert#%d+key#%d", s.w.respKey(ver+1+sh).Idx, s.w.respKey(ver+sh).Idx)
+		s.w.probe("torn_key_record_handed_out")
+		return &key.CertificateAndKey{Certificate: append([]byte(nil), s.w.respKey(ver+1+sh).CertDER...), Key: s.w.respKey(ver + sh).Key}, nil
+	}
 	return s.keyResult(rec, fault, s.w.respKey(ver+s.tenantShift(ctx)))
 }
 
